@@ -3,7 +3,7 @@ Theorems: coq/C10/Props.v (the search table is exactly the kept FDEs, sorted by 
 every pc inside a retained function).  Tie T2 end to end: generated objects with per-function sections and .cfi_
 directives — functions referenced and unreferenced (garbage-collected), COMDAT groups repeated across objects,
 functions without unwind info, functions placed below and above .eh_frame_hdr with --section-start, several objects
-(one CIE each) — are linked by wild with --eh-frame-hdr --gc-sections; .eh_frame and .eh_frame_hdr are parsed back.
+(one or several CIEs each: plain, signal-frame and personality frames) — are linked by wild with --eh-frame-hdr --gc-sections; .eh_frame and .eh_frame_hdr are parsed back.
 Property predicate on the output: count = number of FDEs; strictly sorted by signed start; every entry points at an FDE
 whose pc-begin is the entry's start; FDEs are exactly the retained functions that had unwind info, with their sizes.
 Model vs implementation: C10.Model.table on the same abstract input gives the table's order."""
@@ -58,6 +58,13 @@ def gen_program(rng):
             s += [f".type {name},@function", f"{name}:"]
             if cfi:
                 s.append(" .cfi_startproc")
+                # frames of different kinds need different CIEs: one object then carries several CIEs, and a later plain
+                # function's FDE refers back to the first one, across FDEs that may be dropped
+                ck = rng.choice(["plain", "plain", "plain", "signal", "pers"])
+                if ck == "signal":
+                    s.append(" .cfi_signal_frame")
+                elif ck == "pers":
+                    s.append(" .cfi_personality 0x3, pers_fn")
             s += [" nop"] * (size - 1) + [" ret"]
             if cfi:
                 s.append(" .cfi_endproc")
@@ -74,6 +81,7 @@ def gen_program(rng):
         if f["referenced"]:
             main.append(f" call {f['name']}")
     main += [" ret", " .cfi_endproc", ".size _start, .-_start"]
+    main += ['.section .text.pers_fn,"ax",@progbits', ".globl pers_fn", ".type pers_fn,@function", "pers_fn: ret", ".size pers_fn, .-pers_fn"]
     files["main.s"] = "\n".join(main) + "\n"
     extra = []
     if any(f["placement"] == "low" for f in funcs):
